@@ -21,7 +21,14 @@ BASE_ATTRS = [
     S.attr("e", S.TU("Leaf"), "lit", LF(0)),
     S.attr("f", S.TINT, "lit", I(3)),
     S.attr("g", S.TL(S.TINT), item="g_item"),
+    S.attr("m", S.TL(S.TU("Leaf")), "factory", L(), item="m_item"),
+    S.attr("kl", S.TKL(S.TU("KLeaf"), S.TSTR), "factory", S.KL(), item="kl_item"),
 ]
+KLEAF = S.cls([S.attr("k", S.TSTR), S.attr("ws", S.TL(S.TINT), "lit", L(), item="w")], key="k")
+
+
+def KLF(k, *ws):
+    return OBJ("KLeaf", k=S.S(k), ws=L(*[I(w) for w in ws]))
 
 
 def inh(a, redefault=None):
@@ -33,6 +40,7 @@ def inh(a, redefault=None):
 
 SCN = {"root": "Base", "classes": {
     "Leaf": LEAF,
+    "KLeaf": KLEAF,
     "Base": S.cls(BASE_ATTRS),
     "SubSpec": S.cls([inh(a, L(I(2)) if a["name"] == "a" else None) for a in BASE_ATTRS] + [S.attr("h", S.TL(S.TINT), "lit", L(I(5)), item="h_item")], bases=["Base"]),
     "SubPlain": S.cls([inh(a, L(I(7)) if a["name"] == "a" else LF(9) if a["name"] == "e" else None) for a in BASE_ATTRS], bases=["Base"], plain=True),
@@ -58,9 +66,11 @@ def defaults_table(world):
 POKES = {
     "a": lambda o: o.a.append(9), "b": lambda o: o.b.__setitem__("z", 9), "c": lambda o: o.c.add(9), "d": lambda o: o.d.append(9),
     "e.v": lambda o: setattr(o.e, "v", (o.e.v + 1) % 3), "e.ws": lambda o: o.e.ws.append(9), "g": lambda o: o.g.append(9), "h": lambda o: o.h.append(9),
+    "m.0": lambda o: setattr(o.m[0], "v", (o.m[0].v + 1) % 3), "m.0.ws": lambda o: o.m[0].ws.append(9), "kl.0": lambda o: o.kl[0].ws.append(9),
     "e.with": lambda o: o.with_e(v=2, _inplace=True), "a.item": lambda o: o.with_a_item(5, _inplace=True), "b.item": lambda o: o.with_b_item("q", 1, _inplace=True),
 }
-ARG_POOL = {"a": [L(I(4), I(4))], "b": [D_((S.S("m"), I(2)))], "c": [SET(I(1))], "d": [L(I(6))], "e": [LF(1, 3)], "g": [L(), L(I(8))], "h": [L(I(0))]}
+ARG_POOL = {"a": [L(I(4), I(4))], "b": [D_((S.S("m"), I(2)))], "c": [SET(I(1))], "d": [L(I(6))], "e": [LF(1, 3)], "g": [L(), L(I(8))], "h": [L(I(0))],
+            "m": [S.TUP(LF(1)), L(LF(2, 2)), S.TUP(LF(0), LF(1, 1))], "kl": [L(KLF("a")), S.KL(KLF("b", 1)), S.TUP(KLF("a", 3), KLF("c"))]}
 
 
 def run_histories(job):
@@ -76,7 +86,7 @@ def run_histories(job):
 
         def roots():
             rs = []
-            for cname in classes + ["Leaf"]:
+            for cname in classes + ["Leaf", "KLeaf"]:
                 for a in SCN["classes"][cname]["attrs"]:
                     v = w.classes[cname].__dict__.get(a["name"], None)
                     if a["name"] in w.classes[cname].__dict__ and not callable(v):
